@@ -297,6 +297,36 @@ def check_adapters(fx, rep):
                         okk = False
         rep.check(okk, 'R5', key, b.loc(), 'from_context for %s in order, passed positionally' % (','.join(cs) or '()'),
                   'adapter does not extract %s in order and pass them positionally (calls: %s)' % (cs, names))
+    # ---------------- R6 the parser never puts a copy of a sub-expression into the tree
+    rep.rule('R6', 'no copy of an AST sub-expression enters the tree: a duplicated operand would be evaluated once per copy')
+    AST = re.compile(r'cel_parser::ast::(IdedExpr|Expr|CallExpr|SelectExpr|ListExpr|MapExpr|StructExpr|ComprehensionExpr|EntryExpr|MapEntryExpr|StructFieldExpr)\b')
+    nsc = 0
+    for pb in fx.bodies.values():
+        if pb.crate != 'cel_parser' or pb.is_derived() or pb.raw['kind'] == 'Promoted' or '/gen/' in pb.loc():
+            continue
+        ppv = None
+        for bi, t in pb.calls():
+            nsc += 1
+            n = F.norm_callee(t) or ''
+            if not (n.endswith('Clone::clone') or n.endswith('ToOwned::to_owned') or n.endswith('slice::<impl [T]>::to_vec') or n.endswith('Clone::clone_from')):
+                continue
+            if not AST.search(t['arg_tys'][0]):
+                continue
+            ppv = ppv or F.Prov(pb, transparent={})
+            def direct(x, bi=bi):
+                # the copy itself (possibly projected or re-wrapped in an aggregate), not something computed from it by another call
+                while x[0] in ('f', 'dc', 'ix', 'cast', 'stored'):
+                    x = x[1] if x[0] != 'cast' else x[2]
+                if x[0] == 'agg':
+                    return any(direct(e) for e in x[2])
+                return x[0] == 'call' and x[3] == bi
+            users = sorted({F.norm_callee(t2) or '?' for b2, t2 in pb.calls() if b2 != bi and any(direct(x) for a_ in t2['args'] for x in ppv.of_operand(a_))})
+            stored = any(st['k'] == 'Assign' and st['rv']['k'] == 'Aggregate' and any(direct(x) for o in st['rv']['ops'] for x in ppv.of_operand(o)) for _, _, st in pb.stmts())
+            okk = users == ['cel_parser::macros::extract_ident'] and not stored
+            fn = re.sub(r'::\{closure#\d+\}', '/closure', F.norm_path(pb.path).split('::', 1)[-1])
+            rep.check(okk, 'R6', 'ast-copy/%s' % fn, F.loc_of(t['span']), 'the copy is only read for its identifier name (extract_ident)',
+                      '%s copies a sub-expression (%s) and the copy flows to %s%s: if it ends up in the tree the operand is evaluated once per copy' % (fn, t['arg_tys'][0], users, ' and into an aggregate' if stored else ''))
+    rep.check(nsc >= 800, 'R6', 'parser-call-sites-scanned', 'antlr/src', '%d call sites of the hand-written parser scanned' % nsc, 'only %d call sites scanned (anchor lost)' % nsc)
     rep.floor('R5', 20, '(arity 0-9 with and without FunctionContext)')
     rep.floor('R1', 19, '(at least one args[0] site per operator arm)')
     rep.floor('R2', 25)
